@@ -272,7 +272,33 @@ def _has_disambiguation(f: FuncInfo, init: FuncInfo) -> Tuple[bool, str]:
                     isinstance(s, ast.Assign) and isinstance(s.targets[0], ast.Subscript) and isinstance(s.targets[0].value, ast.Attribute)
                     and s.targets[0].value.attr in used for s in walk_no_nested(f.node))
                 if learns:
-                    return True, f"`{norm(n.test)[:60]}` consults self.{sorted(used)[0]} and changes `{sorted(changed & rets)[0]}` until it is free"
+                    lab = sorted(changed & rets)[0]
+                    cont = sorted(used)[0]
+                    # the label that is finally returned must be the one recorded: claimed by the loop test itself
+                    # (setdefault) or stored after the loop
+                    test_claims = any(isinstance(c, ast.Call) and isinstance(c.func, ast.Attribute) and c.func.attr == "setdefault"
+                                      and isinstance(c.func.value, ast.Attribute) and c.func.value.attr == cont and c.args
+                                      and norm(c.args[0]) == lab for c in ast.walk(n.test))
+                    post_claims = False
+                    for x in walk_no_nested(f.node):
+                        if getattr(x, "lineno", 0) > n.end_lineno and id(x) not in in_assert:
+                            if isinstance(x, ast.Assign) and isinstance(x.targets[0], ast.Subscript) and isinstance(x.targets[0].value, ast.Attribute) \
+                                    and x.targets[0].value.attr == cont and norm(x.targets[0].slice) == lab:
+                                post_claims = True
+                            if isinstance(x, ast.Call) and isinstance(x.func, ast.Attribute) and x.func.attr in ("add", "setdefault") and \
+                                    isinstance(x.func.value, ast.Attribute) and x.func.value.attr == cont and x.args and norm(x.args[0]) == lab:
+                                post_claims = True
+                    if not (test_claims or post_claims):
+                        return False, (f"the label that leaves the loop is never recorded in self.{cont} (only the first candidate is): a "
+                                       f"third key with the same label gets the suffixed name a second time")
+                    # a free slot must not be recognised by a value that a key can have
+                    for c in walk_no_nested(f.node):
+                        if isinstance(c, ast.Call) and isinstance(c.func, ast.Attribute) and c.func.attr == "get" and len(c.args) == 2 and \
+                                isinstance(c.func.value, ast.Attribute) and c.func.value.attr == cont and \
+                                isinstance(c.args[1], ast.Constant) and isinstance(c.args[1].value, str):
+                            return False, (f"`{norm(c)[:50]}` marks a free label with the string {c.args[1].value!r}, which is itself a "
+                                           f"possible JSON key: a label owned by that key looks free")
+                    return True, f"`{norm(n.test)[:60]}` consults self.{cont} and changes `{lab}` until it is free"
                 return False, ("the names handed out are recorded only inside an `assert`, which `python -O` removes: without it every "
                                "label looks free")
     if single_test is not None:
@@ -577,6 +603,9 @@ def _head_effect(f: FuncInfo, st: ast.stmt, s: str, state: frozenset, zero_empty
         fn = norm(st.value.func)
         if fn.endswith("re.sub") or fn == "sub":
             return _ALL, None
+        if fn.endswith(".join") and st.value.args and isinstance(st.value.args[0], (ast.GeneratorExp, ast.ListComp)) and \
+                norm(st.value.args[0].generators[0].iter) == s and norm(st.value.args[0].elt) == norm(st.value.args[0].generators[0].target):
+            return _ALL, None       # a subsequence of the characters: any head class is possible afterwards
         if fn.split(".")[-1] in ("unidecode", "normalize", "underscore", "camelize", "lower", "upper"):
             return state, None
     if isinstance(st, ast.Assign) and f"{s}.lstrip('_')" in txt:
@@ -616,7 +645,8 @@ def _head_effect(f: FuncInfo, st: ast.stmt, s: str, state: frozenset, zero_empty
         return frozenset(out), None
     if isinstance(st, ast.While):
         t = norm(st.test)
-        exit_alpha = f"not {s}[0].isalpha()" in t or f"not {s}[:1].isalpha()" in t or f"not {s}.isidentifier()" in t
+        exit_alpha = f"not {s}[0].isalpha()" in t or f"not {s}[:1].isalpha()" in t or f"not {s}.isidentifier()" in t or (
+            f"{s}[0].isidentifier()" in t and f"{s}[0] != '_'" in t and "not (" in t)
         guarded = f"{s}.strip('_')" in t or f"{s}.lstrip('_')" in t or t.startswith(f"{s} and")
         if exit_alpha and guarded:
             # every iteration must change s (otherwise the loop does not end for some class)
@@ -626,6 +656,9 @@ def _head_effect(f: FuncInfo, st: ast.stmt, s: str, state: frozenset, zero_empty
             for c in state:
                 out |= {"L", "D", "A"} if c == "U" else {c}
             return frozenset(out), None
+    if isinstance(st, (ast.Assign, ast.AnnAssign)) and not isinstance(st, ast.AugAssign):
+        # any other plain assignment: nothing is known about the new head (sound: the later steps must re-establish it)
+        return _ALL, None
     return state, f"unrecognised statement shaping the head of the label: `{txt[:70]}`"
 
 
@@ -663,9 +696,11 @@ def rule_label5(ctx: Ctx) -> RuleResult:
         if isinstance(st, ast.Return):
             break
         # statements after the head is final (case conversion, black-list suffix) do not change the first class
-        new, err = _head_effect(f, st, s, state, zero_empty)
-        if err and isinstance(st, ast.Assign) and norm(st.targets[0]) == s and isinstance(st.value, ast.Call) and \
-                isinstance(st.value.func, ast.Name) and len(st.value.args) == 1 and norm(st.value.args[0]) == s:
+        is_helper_call = isinstance(st, ast.Assign) and norm(st.targets[0]) == s and isinstance(st.value, ast.Call) and \
+            isinstance(st.value.func, ast.Name) and len(st.value.args) == 1 and norm(st.value.args[0]) == s and \
+            st.value.func.id in f.module.functions and len(f.module.functions[st.value.func.id].params) == 1
+        new, err = (state, "helper") if is_helper_call else _head_effect(f, st, s, state, zero_empty)
+        if is_helper_call:
             # a helper of the same module that takes the label and returns it: run it abstractly
             h = f.module.functions.get(st.value.func.id)
             if h is not None and len(h.params) == 1:
@@ -757,7 +792,9 @@ def rule_uniq4(ctx: Ctx) -> RuleResult:
     st = ("in the nested layout the class of a child model is defined in its parent's class body, next to the fields: before "
           "anything is rendered, every generator is told the class names of its model's children so that no field label equals one")
     hit = None
-    for g in steps:
+    ded_idx = next((i for i, g in enumerate(steps) if any(isinstance(n, ast.Call) and norm(n.func).endswith("set_raw_name")
+                                                          for n in ast.walk(g.node))), None)
+    for gi, g in enumerate(steps):
         for n in ast.walk(g.node):
             if isinstance(n, ast.Call) and isinstance(n.func, ast.Attribute) and n.args and ".name" in norm(n.args[0]) and (
                     "reserve" in n.func.attr or n.func.attr in ("setdefault", "add")):
@@ -767,15 +804,24 @@ def rule_uniq4(ctx: Ctx) -> RuleResult:
                     if isinstance(x, ast.For) and any(n is y for y in ast.walk(x)):
                         lp = x
                 if lp is not None and ("child_pointers" in norm(lp.iter) or "nested" in norm(lp.iter)):
-                    hit = (g, n, "child_pointers" in norm(lp.iter))
+                    if hit is None or ("child_pointers" in norm(lp.iter) and not hit[2]):
+                        hit = (g, n, "child_pointers" in norm(lp.iter), gi)
     if hit is None:
         rr.ob(BASE, "_generate_code", "field labels vs child class names", st, VIOLATED,
               "no step before rendering reserves the class names of child models among the field labels: a key that gives the same "
               "label as field and as class (\"1\" -> one_) rebinds the nested class to the field's default", 1)
     else:
-        g, n, both = hit
-        rr.ob(g.relpath, g.qualname, norm(n)[:70], st, DISCHARGED,
-              "reserved from the model graph (same labels in both layouts)" if both else "reserved for nested classes", n.lineno)
+        g, n, both, gi = hit
+        late = ded_idx is None or gi > ded_idx
+        if late and not both:
+            rr.ob(g.relpath, g.qualname, norm(n)[:70], st, VIOLATED,
+                  "only the classes the layout nests below a class are reserved, not the children of its model: the flat layout (which "
+                  "nests nothing) hands out other field names than the nested one (`one_` there, `one__` here)", n.lineno)
+            return rr
+        rr.ob(g.relpath, g.qualname, norm(n)[:70], st, DISCHARGED if late else VIOLATED,
+              ("reserved from the model graph (same labels in both layouts)" if both else "reserved for nested classes") if late else
+              "the class names are reserved BEFORE the de-duplication step renames some of them: a field can dodge the old name and "
+              "land exactly on the new one (\"1\" and \"#1\": class one__ and field one__ in one body)", n.lineno)
     return rr
 
 
@@ -791,6 +837,12 @@ def rule_uniq5(ctx: Ctx) -> RuleResult:
             if isinstance(lp, ast.For) and isinstance(lp.iter, ast.Call) and norm(lp.iter.func) == "sorted" and \
                     ".type" in norm(lp.iter) and any(isinstance(n, ast.Call) and norm(n.func).endswith("convert_field_name") for n in ast.walk(lp)):
                 hit = (g, lp)
+                keyed = [k for k in lp.iter.keywords if k.arg == "key"]
+                if keyed:
+                    rr.ob(g.relpath, g.qualname, norm(lp.iter)[:60], st, VIOLATED,
+                          f"the keys are sorted with `key={norm(keyed[0].value)[:30]}`: keys that this function maps to the same value "
+                          f"(\"Name\" / \"name\") tie and keep the order in which the samples brought them", lp.lineno)
+                    return rr
     prog = ctx.prog
     base = prog.cls(BASE, "GenericModelCodeGenerator")
     init = prog.func(BASE, "GenericModelCodeGenerator.__init__")
@@ -806,4 +858,33 @@ def rule_uniq5(ctx: Ctx) -> RuleResult:
     else:
         g, lp = hit
         rr.ob(g.relpath, g.qualname, norm(lp.iter)[:60], st, DISCHARGED, "labels handed out in sorted key order before rendering", lp.lineno)
+    return rr
+
+
+def rule_label6(ctx: Ctx) -> RuleResult:
+    """LABEL-6: every character kept in a label is one Python allows in an identifier."""
+    rr = RuleResult("LABEL-6", "a label consists of identifier characters only", floor=1)
+    f = _pl(ctx)
+    s = f.params[0]
+    rr.instances += 1
+    st = ("`\\w` is wider than Python's identifier characters (it keeps numeric characters of category No such as U+09F4 or U+2780, "
+          "and str.isalpha() accepts U+2E2F, which cannot start an identifier): when the key is not transliterated to ASCII the "
+          "label is filtered with str.isidentifier()")
+    nodes = list(walk_no_nested(f.node))
+    translit_only = not any(isinstance(n, ast.If) and "convert_unicode" in norm(n.test) for n in nodes) and any(
+        isinstance(n, ast.Call) and norm(n.func).split(".")[-1] == "unidecode" for n in nodes)
+    # a per-character filter through isidentifier, or an ASCII-only character class
+    ident_filter = any(isinstance(n, ast.Call) and isinstance(n.func, ast.Attribute) and n.func.attr == "isidentifier" for n in nodes)
+    ascii_class = any(isinstance(n, ast.Call) and norm(n.func).endswith("re.sub") and n.args and isinstance(n.args[0], ast.Constant)
+                      and isinstance(n.args[0].value, str) and "[^" in n.args[0].value and "\\w" not in n.args[0].value for n in nodes) or \
+        any(isinstance(n, ast.Attribute) and n.attr == "ASCII" for n in nodes)
+    start_alpha = any(isinstance(n, ast.Call) and isinstance(n.func, ast.Attribute) and n.func.attr == "isalpha" and
+                      isinstance(n.func.value, ast.Subscript) and norm(n.func.value.value) == s for n in nodes)
+    ok = translit_only or ascii_class or (ident_filter and not start_alpha)
+    rr.ob(f.relpath, f.qualname, "characters kept by prepare_label", st, DISCHARGED if ok else VIOLATED,
+          "filtered with isidentifier()" if ok else
+          ("the first character is tested with isalpha(), which accepts characters that cannot start an identifier (U+2E2F)"
+           if ident_filter and start_alpha else
+           "only `\\W` is removed: with unicode conversion off the key \"a৴\" (U+09F4) gives the field `a৴`, a SyntaxError in the "
+           "generated module"), f.node.lineno)
     return rr
